@@ -331,5 +331,17 @@ def main():
     print("OK property=C16 tier=%s programs=%d families=%d obligations=%d wall=%.0fs" % (tier, len(progs), cov["families"], cov["disagreements_checked"], wall))
 
 
+def _guarded_main():
+    """an internal error of the machinery is never a verdict: exit 2 (inconclusive), not a traceback with exit 1"""
+    try:
+        main()
+    except SystemExit:
+        raise
+    except BaseException:
+        import traceback
+        print("INCONCLUSIVE: internal error of the check: " + traceback.format_exc()[-1500:])
+        sys.exit(2)
+
+
 if __name__ == "__main__":
-    main()
+    _guarded_main()
